@@ -18,6 +18,7 @@ def fresh_case(sc):
     from sim.opsim import GROUP, PLURAL, VERSION, Sim
     sim = Sim(wall_budget=20)
     try:
+        sim.srv.keep_bodies.add(PLURAL)
         reg = sim.registry()
         mirror = sc['mirror']
         rec_w = sim.handler('w', kind='event')
@@ -97,10 +98,11 @@ def fresh_case(sc):
             elif e['ev'] == 'h.exit' and e.get('id') == 'a' and 'a' in opened: busy.append((opened.pop('a'), e['t']))
         for e in sim.recorder.events:
             if e['ev'] == 'srv.req' and e.get('kind') == 'patch' and e.get('plural') == PLURAL and e.get('loop') == 'op1' and e.get('code') == 200 and e.get('changed'):
-                events.append({'ev': 'patch', 't': e['t'], 'rv': e['rv_after']})
+                ann_ = ((e.get('pbody') or {}).get('metadata') or {}).get('annotations') or {} if isinstance(e.get('pbody'), dict) else {}
+                events.append({'ev': 'patch', 't': e['t'], 'rv': e['rv_after'], 'lh': bool(ann_.get('kopf.zalando.org/last-handled-configuration'))})
             elif e['ev'] == 'h.enter' and e.get('id') == 'a':
                 sc_ = e.get('script')
-                events.append({'ev': 'inv', 't': e['t'], 'rv': e.get('rv') or 0, 'retry': e.get('retry') or 0,
+                events.append({'ev': 'inv', 't': e['t'], 'rv': e.get('rv') or 0, 'retry': e.get('retry') or 0, 'reason': e.get('reason') or '',
                                'k': sc_ if isinstance(sc_, str) else (sc_[0] if sc_ else 'ok'), 'd': 0 if isinstance(sc_, str) or not sc_ or sc_[0] != 'temp' else sc_[1]})
             elif e['ev'] == 'h.enter' and e.get('id') == 'w':
                 events.append({'ev': 'winv', 't': e['t'], 'rv': e.get('rv') or 0})
